@@ -1,7 +1,7 @@
 (* C11 — Evolution strategies keep a valid search distribution and are rank-invariant.
-   Only statements + `exact`; proofs in C11Proofs.v / C11MoreProofs.v (over Q, axiom-free) and C11CholProofs.v (over R: the
-   Cholesky-factor models take square roots; only the axioms of the standard library's real numbers), executable model
-   in C11Model.v.
+   Only statements + `exact`; proofs in C11Proofs.v / C11MoreProofs.v / C11SimplexProofs.v / C11CemProofs.v / C11RunProofs.v (over Q or
+   over every arithmetic, axiom-free) and C11CholProofs.v (over R: the Cholesky-factor models take square roots; only the axioms of the
+   standard library's real numbers), executable model in C11Model.v and C11DirectModel.v.
 
    PROVED here (all sizes, all inputs, all histories):
      over Q, closed under the global context
@@ -46,16 +46,53 @@
                                       branch: no exception, sigma' > 0, factor with positive diagonal, covariance positive definite,
                                       x^T C' x identity per branch, determinant factor (1+r)^n (1 - r/(1+r)|z|^2) of the active update;
      * C11_vd_sample_covariance       VDCMA::createSample: y = (I + a vn vn^T) z has |y|^2 = |z|^2 + (v.z)^2, x = m + sigma D*y.
+     over Q / over every arithmetic, closed under the global context (C11DirectModel.v: the objective is an ORACLE, every random draw an
+       explicit argument; proofs in C11SimplexProofs.v, C11CemProofs.v, C11RunProofs.v)
+     * C11_simplex_reports_objective  SimplexDownhill as coded (init, sort, reflection 2x0-w / expansion 3x0-2w / contraction (x0+w)/2 / reduction
+                                      (b+v)/2 with the coded comparisons, m_best tracking): after init and every number of steps the reported
+                                      value IS the oracle at the reported point and every vertex carries its oracle value — PROVIDED some
+                                      initial vertex has a value below the literal 1e100 that init() stores in m_best.value;
+     * C11_simplex_literal_witness    ... and WITHOUT that proviso it is false: if no objective value is below the literal, solution() reports
+                                      (literal, the point the object held before init) for ever — the one place of the class where a VALUE
+                                      rather than a comparison of objective values is used (observed on the real class: NM probe, see below);
+     * C11_simplex_best_never_worse / _best_monotone / _minval_is_min / C11_simplex_reported_never_worse
+                                      the best vertex value (the value of the first vertex after the sort = the least vertex value) never
+                                      increases from step to step resp. along a run, for every oracle and every state with >= 2 vertices;
+                                      the reported value never increases;
+     * C11_simplex_rank_invariant / _rescaling   two oracles that order every pair of points identically (and compare identically with the
+                                      literal) visit exactly the same simplices and report the same point, for every start and number of
+                                      steps; in particular phi o f for strictly increasing phi.  No other use of values exists in step();
+     * C11_cem_reports_objective / C11_cem_step_throws_iff   CrossEntropyMethod::step as coded (sampling z*sqrt(var)+mean with the draws as
+                                      arguments, ElitistSelection, counter, updateStrategyParameters, m_best = parents[0]): reported value =
+                                      oracle (= unpenalised fitness) at the reported point, which is the best-ranked sample of the step;
+                                      the step throws exactly when population size <= selection size;
+     * C11_cem_update_distribution    mean = average of the elite; variance_j >= noise term, > 0 whenever the noise term is > 0, and == 0
+                                      EXACTLY when the noise term is 0 and all elite samples agree in coordinate j (known finding C11-CEM0);
+     * C11_cem_noise_schedules        ConstantNoise / LinearNoise are >= 0; > 0 iff c > 0 resp. a + t b > 0;
+     * C11_cem_rank_invariant / C11_cem_elite_rank_invariant   same elite, mean, variance, counter, reported point for order-equivalent
+                                      oracles along every run; same elite under a strictly increasing rescaling;
+     * C11_cma_run_rank_invariant(_any_arithmetic) / C11_cma_run_rescaling / C11_cmsa_run_rank_invariant(_any_arithmetic) / C11_cmsa_run_rescaling
+                                      whole steps of the MODEL (offspring sampled from the draws, evaluated by the oracle, then cma_update resp.
+                                      cmsa_update): order-equivalent oracles give the SAME state (mean, sigma, covariance / factor, paths) after
+                                      every sequence of draws, for every arithmetic incl. the float instantiation.
    STILL NOT PROVED: that D of VDCMA stays positive along a run (it does iff meanS > -1, a property of the sample); full rank of the
-     rank-mu part in the CMA corner (probabilistic); convergence; the symmetric eigendecomposition; floating-point rounding.
+     rank-mu part in the CMA corner (probabilistic); convergence; the symmetric eigendecomposition (an oracle [eig] of cma_step); that the
+     reported solution of SimplexDownhill is a best vertex of the simplex (monitored); floating-point rounding; NaN objective values
+     (comparisons are modelled with the strict order only).
    COMPARED on every run (tools/c11.py, float instantiation of the SAME model functions, 1e-10, on states/offspring recorded from the
-     real optimizers): cma_update = CMA::updatePopulation; cmsa_update = CMSA::updatePopulation; ecma_chrom_step = the CMAChromosome
-     update inside ElitistCMA::step; vd_update / vd_sample = VDCMA::updateStrategyParameters / createSample; chol_update =
-     cholesky_decomposition::update on exact inputs including its exception exit; elitist_step, penalized_eval exactly.
-   ONLY MONITORED: eigendecomposition; cross-entropy / simplex internals; seed determinism; rank invariance of the real
-     optimizers on f vs 4f; convergence on the sphere; D > 0 in VDCMA. *)
-From Coq Require Import List QArith Lqa Permutation Sorted Reals.
-From SharkV Require Import C11Model C11Proofs C11MoreProofs C11CholProofs.
+     real optimizers): cma_update = CMA::updatePopulation; cma_step (offspring sampled by the model from the recorded draws and eigen-pairs) =
+     generateOffspring + evaluation + updatePopulation; cmsa_update = CMSA::updatePopulation; cmsa_step (draws read back) = CMSA::step;
+     ecma_chrom_step = the CMAChromosome update inside ElitistCMA::step; vd_update / vd_sample = VDCMA::updateStrategyParameters /
+     createSample; chol_update = cholesky_decomposition::update on exact inputs including its exception exit; elitist_step, penalized_eval exactly.
+     EXACTLY (bit for bit): sd_init / sd_step = SimplexDownhill::init / step replayed from the implementation's own previous simplex with the
+     table of its own evaluations as oracle (simplex, reported solution, set of evaluated points; every branch, ties, dimension 1..15);
+     cem_sample = the sampling of CrossEntropyMethod::step on the draws read back; at 1e-12: cem_select_update on the recorded samples and
+     cem_step on the draws = mean / variance / reported solution / exception of CrossEntropyMethod::step.
+   ONLY MONITORED: eigendecomposition; seed determinism; rank invariance of the real optimizers on f vs 4f (RUN streams; for SimplexDownhill
+     additionally on whole simplices, NM streams; for CrossEntropyMethod on the elite, XCOR streams); convergence on the sphere; D > 0 in VDCMA;
+     reported solution of SimplexDownhill = a best vertex. *)
+From Coq Require Import List QArith Lqa Lia Permutation Sorted Reals.
+From SharkV Require Import C11Model C11Proofs C11MoreProofs C11CholProofs C11DirectModel C11SimplexProofs C11CemProofs C11RunProofs.
 Open Scope Q_scope.
 Import ListNotations.
 
@@ -408,3 +445,214 @@ Proof.
   destruct C11_L2_is_factor as (W & D).
   apply C11_chol_update_downdate; auto; try lra; try (apply dpos_dnz; auto). cbn. lra.
 Qed.
+
+(* ================================================================ SimplexDownhill (C11DirectModel.sd_init / sd_step / sd_run, over Q) *)
+Close Scope R_scope.
+Open Scope Q_scope.
+
+(* (a) the reported value is the objective at the reported point, and every vertex carries its objective value — PROVIDED some
+   initial vertex has a value below the literal [big] (= 1e100 in SimplexDownhill::init); see C11_simplex_literal_witness *)
+Theorem C11_simplex_reports_objective :
+  forall sq ex pw (f : list Q -> Q) (big : Q) (p0 start : list Q) (n : nat),
+  (exists j, (j <= length start)%nat /\ f (sd_vertex (QO sq ex pw) start j) < big) ->
+  let st := sd_run (QO sq ex pw) f n (sd_init (QO sq ex pw) f big p0 start) in
+  fst (sd_best st) = f (snd (sd_best st)) /\ Forall (fun v => fst v = f (snd v)) (sd_simplex st).
+Proof. exact sd_reports_objective_lemma. Qed.
+Print Assumptions C11_simplex_reports_objective.
+
+(* the place where a VALUE (not a comparison of objective values) is used: if no objective value is below the literal, solution()
+   keeps reporting (literal, the point the object held before init) after every number of steps *)
+Theorem C11_simplex_literal_witness :
+  forall sq ex pw (f : list Q -> Q) (big : Q) (p0 start : list Q) (n : nat),
+  (forall x, big <= f x) ->
+  sd_best (sd_run (QO sq ex pw) f n (sd_init (QO sq ex pw) f big p0 start)) = (big, p0).
+Proof. exact sd_literal_reported_lemma. Qed.
+Print Assumptions C11_simplex_literal_witness.
+
+(* sd_minval = best.value as the step sees it = the least vertex value *)
+Theorem C11_simplex_minval_is_min :
+  forall sq ex pw (s : list (sol Q)),
+  (forall v, In v s -> sd_minval sq ex pw s <= fst v) /\ (s <> [] -> exists v, In v s /\ fst v = sd_minval sq ex pw s).
+Proof. intros sq ex pw s. split; [exact (minval_le sq ex pw s)|exact (minval_in sq ex pw (s:=s))]. Qed.
+Print Assumptions C11_simplex_minval_is_min.
+
+(* (b) the best value of the simplex never increases (dimension >= 1, i.e. at least two vertices), for every oracle and state *)
+Theorem C11_simplex_best_never_worse :
+  forall sq ex pw (f : list Q -> Q) (st : sd_state Q), (2 <= length (sd_simplex st))%nat ->
+  sd_minval sq ex pw (sd_simplex (sd_step (QO sq ex pw) f st)) <= sd_minval sq ex pw (sd_simplex st).
+Proof. exact sd_simplex_best_never_worse. Qed.
+Print Assumptions C11_simplex_best_never_worse.
+
+Theorem C11_simplex_best_monotone :
+  forall sq ex pw (f : list Q -> Q) (n : nat) (st : sd_state Q), (2 <= length (sd_simplex st))%nat ->
+  sd_minval sq ex pw (sd_simplex (sd_run (QO sq ex pw) f n st)) <= sd_minval sq ex pw (sd_simplex st).
+Proof. exact sd_simplex_best_monotone. Qed.
+Print Assumptions C11_simplex_best_monotone.
+
+Theorem C11_simplex_reported_never_worse :
+  forall sq ex pw (f : list Q -> Q) (st : sd_state Q),
+  fst (sd_best (sd_step (QO sq ex pw) f st)) <= fst (sd_best st).
+Proof. exact sd_reported_never_worse. Qed.
+Print Assumptions C11_simplex_reported_never_worse.
+
+(* (c) RANK INVARIANCE: two oracles that order every pair of points identically (and compare identically with the literal of init)
+   visit exactly the same simplices and report the same point, for every start point and every number of steps *)
+Theorem C11_simplex_rank_invariant :
+  forall sq ex pw (f g : list Q -> Q) (big : Q) (p0 start : list Q) (n : nat),
+  (forall x y, f x < f y <-> g x < g y) -> (forall x, f x < big <-> g x < big) ->
+  map snd (sd_simplex (sd_run (QO sq ex pw) f n (sd_init (QO sq ex pw) f big p0 start))) =
+  map snd (sd_simplex (sd_run (QO sq ex pw) g n (sd_init (QO sq ex pw) g big p0 start))) /\
+  snd (sd_best (sd_run (QO sq ex pw) f n (sd_init (QO sq ex pw) f big p0 start))) =
+  snd (sd_best (sd_run (QO sq ex pw) g n (sd_init (QO sq ex pw) g big p0 start))).
+Proof. exact sd_rank_invariant_lemma. Qed.
+Print Assumptions C11_simplex_rank_invariant.
+
+Theorem C11_simplex_rank_invariant_rescaling :
+  forall sq ex pw (phi : Q -> Q) (f : list Q -> Q) (big : Q) (p0 start : list Q) (n : nat),
+  (forall a b, a < b -> phi a < phi b) -> (forall a b, a == b -> phi a == phi b) -> (forall x, f x < big <-> phi (f x) < big) ->
+  let g := fun x => phi (f x) in
+  map snd (sd_simplex (sd_run (QO sq ex pw) f n (sd_init (QO sq ex pw) f big p0 start))) =
+  map snd (sd_simplex (sd_run (QO sq ex pw) g n (sd_init (QO sq ex pw) g big p0 start))) /\
+  snd (sd_best (sd_run (QO sq ex pw) f n (sd_init (QO sq ex pw) f big p0 start))) =
+  snd (sd_best (sd_run (QO sq ex pw) g n (sd_init (QO sq ex pw) g big p0 start))).
+Proof. exact sd_rank_invariant_rescaling. Qed.
+Print Assumptions C11_simplex_rank_invariant_rescaling.
+
+(* ---- the hypotheses are satisfiable: the sphere in dimension 2 from (0,0), literal 1000; and the witness on f = 2000 *)
+Definition sphereQ (x : list Q) : Q := normsqr (QO idq idq pw0) x.
+
+Definition sd_st0 : sd_state Q := sd_init (QO idq idq pw0) sphereQ 1000 [] [0; 0].
+Definition sd_start0 : list Q := [0; 0].
+
+Example C11_simplex_example :
+  (exists j, (j <= length sd_start0)%nat /\ sphereQ (sd_vertex (QO idq idq pw0) sd_start0 j) < 1000) /\
+  (2 <= length (sd_simplex sd_st0))%nat /\
+  (forall x y, sphereQ x < sphereQ y <-> 4 * sphereQ x < 4 * sphereQ y) /\
+  Qeq_bool (fst (sd_best (sd_run (QO idq idq pw0) sphereQ 5 (sd_init (QO idq idq pw0) sphereQ 1000 [] [0; 0])))) (98165 # 4194304) = true.
+Proof.
+  split; [exists 0%nat; split; [cbn; lia|vm_compute; reflexivity]|].
+  split; [vm_compute; lia|]. split; [intros; split; intro; Lqa.lra|vm_compute; reflexivity].
+Qed.
+
+Example C11_simplex_literal_example :
+  sd_best (sd_run (QO idq idq pw0) (fun _ => 2000) 3 (sd_init (QO idq idq pw0) (fun _ => 2000) 1000 [7] [0; 0])) = (1000, [7]).
+Proof. apply C11_simplex_literal_witness. intro x. Lqa.lra. Qed.
+
+(* ================================================================ CrossEntropyMethod (C11DirectModel.cem_step / cem_run, over Q) *)
+(* the reported value is the oracle (= unpenalised fitness of PenalizingEvaluator: objective at the closest feasible point) at the
+   reported point; that point is the best-ranked of this step's samples *)
+Theorem C11_cem_reports_objective :
+  forall sq ex pw (ev : list Q -> Q) (noise : nat -> Q) (n mu : nat) (st : cem_state Q) (zs : list (list Q)) (st' : cem_state Q),
+  (0 < mu)%nat -> cem_step (QO sq ex pw) ev noise n mu st zs = Some st' ->
+  fst (c_best st') = ev (snd (c_best st')) /\
+  In (snd (c_best st')) (cem_samples (QO sq ex pw) st zs) /\
+  snd (c_best st') = hd [] (cem_elite (QO sq ex pw) ev mu st zs) /\
+  c_counter st' = S (c_counter st).
+Proof. intros sq ex pw. exact (@cem_reports_objective_generic Q (QO sq ex pw)). Qed.
+Print Assumptions C11_cem_reports_objective.
+
+(* the step throws (ElitistSelection's runtime check) exactly when the population is not larger than the selection size *)
+Theorem C11_cem_step_throws_iff :
+  forall sq ex pw (ev : list Q -> Q) (noise : nat -> Q) (n mu : nat) (st : cem_state Q) (zs : list (list Q)),
+  cem_step (QO sq ex pw) ev noise n mu st zs = None <-> (length zs <= mu)%nat.
+Proof. intros sq ex pw. exact (@cem_step_none_iff Q (QO sq ex pw)). Qed.
+Print Assumptions C11_cem_step_throws_iff.
+
+(* mean = average of the elite; variance_j >= noise, > 0 whenever the noise term is > 0, and == 0 EXACTLY when the noise term is 0
+   and all elite samples agree in coordinate j (the precise form of the known finding C11-CEM0) *)
+Theorem C11_cem_update_distribution :
+  forall sq ex pw (ev : list Q -> Q) (noise : nat -> Q) (n mu : nat) (st : cem_state Q) (zs : list (list Q)) (st' : cem_state Q) (j : nat),
+  (0 < mu)%nat -> (j < n)%nat -> 0 <= noise (S (c_counter st)) ->
+  cem_step (QO sq ex pw) ev noise n mu st zs = Some st' ->
+  let elite := cem_elite (QO sq ex pw) ev mu st zs in
+  let nz := noise (S (c_counter st)) in
+  length elite = mu /\ (mu < length zs)%nat /\
+  nth j (c_mean st') 0 * inject_Z (Z.of_nat mu) == cem_sumf (cj j) elite /\
+  nz <= nth j (c_var st') 0 /\
+  (0 < nz -> 0 < nth j (c_var st') 0) /\
+  (nth j (c_var st') 0 == 0 <-> nz == 0 /\ forall x y, In x elite -> In y elite -> cj j x == cj j y).
+Proof. exact cem_step_spec. Qed.
+Print Assumptions C11_cem_update_distribution.
+
+Theorem C11_cem_noise_schedules :
+  forall sq ex pw (c a b : Q) (t : nat),
+  0 <= cem_noise_const (QO sq ex pw) c t /\ 0 <= cem_noise_linear (QO sq ex pw) a b t /\
+  (0 < cem_noise_const (QO sq ex pw) c t <-> 0 < c) /\
+  (0 < cem_noise_linear (QO sq ex pw) a b t <-> 0 < a + inject_Z (Z.of_nat t) * b).
+Proof. exact cem_noise_spec. Qed.
+Print Assumptions C11_cem_noise_schedules.
+
+(* rank invariance: the elite (hence mean, variance, counter, reported point) is the same for two oracles that order every pair of
+   points identically, for every sequence of draws; in particular for a strictly increasing rescaling *)
+Theorem C11_cem_rank_invariant :
+  forall sq ex pw (ev ev' : list Q -> Q) (noise : nat -> Q) (n mu : nat) (zss : list (list (list Q))) (st : cem_state Q),
+  (forall x y, ev x < ev y <-> ev' x < ev' y) ->
+  option_map (@cem_proj Q) (cem_run (QO sq ex pw) ev noise n mu st zss) = option_map (@cem_proj Q) (cem_run (QO sq ex pw) ev' noise n mu st zss).
+Proof. exact cem_rank_invariant_lemma. Qed.
+Print Assumptions C11_cem_rank_invariant.
+
+Theorem C11_cem_elite_rank_invariant :
+  forall sq ex pw (phi : Q -> Q) (ev : list Q -> Q) (mu : nat) (st : cem_state Q) (zs : list (list Q)),
+  (forall a b, a < b -> phi a < phi b) -> (forall a b, a == b -> phi a == phi b) ->
+  cem_elite (QO sq ex pw) (fun x => phi (ev x)) mu st zs = cem_elite (QO sq ex pw) ev mu st zs.
+Proof. exact cem_elite_rank_invariant_lemma. Qed.
+Print Assumptions C11_cem_elite_rank_invariant.
+
+(* ---- satisfiable: one step in dimension 1 from N(0, 1) with draws 1, 2, 3 and an elite of 2 (variance 1/4); with draws 1, 1, 3 the
+   elite agrees and the noise-free variance is exactly 0 *)
+Definition cem_st0 : cem_state Q := mkCem [0] [1] 0 (0, []).
+Example C11_cem_example :
+  (exists st', cem_step (QO idq idq pw0) sphereQ (cem_noise_const (QO idq idq pw0) 0) 1 2 cem_st0 [[1]; [2]; [3]] = Some st' /\
+               Qeq_bool (nth 0 (c_mean st') 0) (3 # 2) = true /\ Qeq_bool (nth 0 (c_var st') 0) (1 # 4) = true /\ c_best st' = (1 * 1 + 0, [1 * 1 + 0])) /\
+  (exists st', cem_step (QO idq idq pw0) sphereQ (cem_noise_const (QO idq idq pw0) 0) 1 2 cem_st0 [[1]; [1]; [3]] = Some st' /\
+               Qeq_bool (nth 0 (c_var st') 0) 0 = true).
+Proof. split; eexists; (split; [vm_compute; reflexivity|]); repeat split; vm_compute; reflexivity. Qed.
+
+(* ================================================================ whole runs of CMA / CMSA on the model: rank invariance *)
+(* for EVERY arithmetic (in particular the float instantiation the driver runs): two oracles that order every pair of search points
+   identically give the SAME state (mean, sigma, covariance, paths, counter) after every sequence of draws *)
+Theorem C11_cma_run_rank_invariant_any_arithmetic :
+  forall (A : Type) (O : ops A) (ev ev' : list A -> A), oeq O ev ev' ->
+  forall eig k n mu ws zss st, cma_run O ev eig k n mu ws st zss = cma_run O ev' eig k n mu ws st zss.
+Proof. exact cma_run_rank_invariant. Qed.
+Print Assumptions C11_cma_run_rank_invariant_any_arithmetic.
+
+Theorem C11_cmsa_run_rank_invariant_any_arithmetic :
+  forall (A : Type) (O : ops A) (ev ev' : list A -> A), oeq O ev ev' ->
+  forall cSigma cC n mu dss st, cmsa_run O ev cSigma cC n mu st dss = cmsa_run O ev' cSigma cC n mu st dss.
+Proof. exact cmsa_run_rank_invariant. Qed.
+Print Assumptions C11_cmsa_run_rank_invariant_any_arithmetic.
+
+Theorem C11_cma_run_rank_invariant :
+  forall sq ex pw (ev ev' : list Q -> Q) eig k n mu ws zss st,
+  (forall x y, ev x < ev y <-> ev' x < ev' y) ->
+  cma_run (QO sq ex pw) ev eig k n mu ws st zss = cma_run (QO sq ex pw) ev' eig k n mu ws st zss.
+Proof. exact cma_run_rank_invariant_Q. Qed.
+Print Assumptions C11_cma_run_rank_invariant.
+
+Theorem C11_cma_run_rescaling :
+  forall sq ex pw (phi : Q -> Q) (ev : list Q -> Q) eig k n mu ws zss st,
+  (forall a b, a < b -> phi a < phi b) -> (forall a b, a == b -> phi a == phi b) ->
+  cma_run (QO sq ex pw) (fun x => phi (ev x)) eig k n mu ws st zss = cma_run (QO sq ex pw) ev eig k n mu ws st zss.
+Proof. exact cma_run_rescaling_Q. Qed.
+Print Assumptions C11_cma_run_rescaling.
+
+Theorem C11_cmsa_run_rank_invariant :
+  forall sq ex pw (ev ev' : list Q -> Q) cSigma cC n mu dss st,
+  (forall x y, ev x < ev y <-> ev' x < ev' y) ->
+  cmsa_run (QO sq ex pw) ev cSigma cC n mu st dss = cmsa_run (QO sq ex pw) ev' cSigma cC n mu st dss.
+Proof. exact cmsa_run_rank_invariant_Q. Qed.
+Print Assumptions C11_cmsa_run_rank_invariant.
+
+Theorem C11_cmsa_run_rescaling :
+  forall sq ex pw (phi : Q -> Q) (ev : list Q -> Q) cSigma cC n mu dss st,
+  (forall a b, a < b -> phi a < phi b) -> (forall a b, a == b -> phi a == phi b) ->
+  cmsa_run (QO sq ex pw) (fun x => phi (ev x)) cSigma cC n mu st dss = cmsa_run (QO sq ex pw) ev cSigma cC n mu st dss.
+Proof. exact cmsa_run_rescaling_Q. Qed.
+Print Assumptions C11_cmsa_run_rescaling.
+
+(* ---- satisfiable: phi(t) = 4 t + 1 is strictly increasing and ==-compatible; sphere vs 4*sphere + 1 order every pair identically *)
+Example C11_rescaling_example :
+  (forall a b : Q, a < b -> 4 * a + 1 < 4 * b + 1) /\ (forall a b : Q, a == b -> 4 * a + 1 == 4 * b + 1) /\
+  (forall x y, sphereQ x < sphereQ y <-> 4 * sphereQ x + 1 < 4 * sphereQ y + 1).
+Proof. split; [intros; Lqa.lra|]. split; [intros a b E; rewrite E; reflexivity|intros; split; intro; Lqa.lra]. Qed.
